@@ -190,6 +190,8 @@ def wl_shift(ctx, idx, rng):
     sshape = SHAPES[(idx // len(Ns)) % 4]
     vk = VAL_KINDS[(idx // (len(Ns) * 4)) % len(VAL_KINDS)]
     sk = SHAPE_KINDS[int(rng.integers(len(SHAPE_KINDS)))]
+    if len(sshape) > 1 and rng.random() < 0.3:
+        sshape = [(2, 2), (3, 3), (2, 2, 2)][int(rng.integers(3))]
     if N >= 4096 and len(sshape) > 1:
         sshape = sshape[:1]
     dtype = gen.pick(rng, [np.complex64, np.complex128]) if vk != "tiny" else np.complex128
@@ -217,6 +219,20 @@ def wl_shift(ctx, idx, rng):
         ctx.inconclusive_because("freq_shift probe did not fire")
     if exc is None:
         ctx.bucket(N, np.dtype(dtype).name, sshape, sk, vk, "dask" if use_dask else "np")
+    if exc is None and use_dask:
+        a2 = make_shift_bins(rng, N, sshape, vk if vk != "tiny" else "frac", sk)
+        o3, e3 = ctx.call("freq_shift", pb.freq_shift, sig, (a2 / N) * sig.sample_rate)
+        sig_b, _ = gen.make_signal(rng, clsname, N, data=gen.rand_data(rng, (N,) + sshape, dtype), rate=rate, dask=True)
+        o4, e4 = ctx.call("freq_shift", pb.freq_shift, sig_b, df)
+        monitors.joint_compute_check(ctx, "freq_shift", [r_ for r_, e_ in ((out, exc), (o3, e3), (o4, e4)) if e_ is None and isinstance(r_, pb.Signal)],
+                                     {"cls": clsname, "dask": True}, "freq_shift results of equal length")
+    if exc is None and len(sshape) >= 2 and rng.random() < 0.5:
+        # call history: the same numbers in another orientation right after, on the same signal
+        v = np.atleast_1d(np.asarray(df.value, dtype=float)).ravel()
+        for shp in {(v.size,), (1, v.size), (v.size, 1)}:
+            if len(shp) <= len(sshape) and all(a_ in (1, b_) for a_, b_ in zip(shp, sshape)) and shp != np.shape(a):
+                ctx.call("freq_shift", pb.freq_shift, sig, v.reshape(shp) * df.unit)
+                ctx.count("history[reoriented_shift]")
     # error contract
     r = rng.random()
     if r < 0.05:
